@@ -197,21 +197,27 @@ Record stats := {
 Definition stats_empty : stats :=
   {| st_count := 0; st_min := []; st_max := []; st_sum := []; st_isnum := [] |}.
 
-(* body of the loop of MetricsStatistics.add for one (metric_name, current_metric) *)
+(* body of the loop of MetricsStatistics.add for one (metric_name, current_metric):
+   the type of the FIRST value of a metric is recorded in is_numeric and never changes;
+   a value is counted iff the metric is numeric and the value is a number (a non-number
+   reported for a numeric metric is skipped; a metric whose first value is not a number
+   is never tracked). *)
 Definition stats_add_one (s : stats) (k : key) (v : value) : stats :=
-  if aget_d key_eqb k (st_isnum s) true then
-    match v with
-    | VNum x =>
-        {| st_count := st_count s;
-           st_min := aset key_eqb k (py_min (aget_d key_eqb k (st_min s) PInf) x) (st_min s);
-           st_max := aset key_eqb k (py_max (aget_d key_eqb k (st_max s) NInf) x) (st_max s);
-           st_sum := aset key_eqb k (num_add (aget_d key_eqb k (st_sum s) (Fin 0)) x) (st_sum s);
-           st_isnum := aset key_eqb k true (st_isnum s) |}
-    | VTok _ =>
-        {| st_count := st_count s; st_min := st_min s; st_max := st_max s; st_sum := st_sum s;
-           st_isnum := aset key_eqb k false (st_isnum s) |}
-    end
-  else s.
+  let isnum' := match aget key_eqb k (st_isnum s) with
+                | Some _ => st_isnum s
+                | None => aset key_eqb k (is_number v) (st_isnum s)
+                end in
+  match aget_d key_eqb k isnum' false, v with
+  | true, VNum x =>
+      {| st_count := st_count s;
+         st_min := aset key_eqb k (py_min (aget_d key_eqb k (st_min s) PInf) x) (st_min s);
+         st_max := aset key_eqb k (py_max (aget_d key_eqb k (st_max s) NInf) x) (st_max s);
+         st_sum := aset key_eqb k (num_add (aget_d key_eqb k (st_sum s) (Fin 0)) x) (st_sum s);
+         st_isnum := isnum' |}
+  | _, _ =>
+      {| st_count := st_count s; st_min := st_min s; st_max := st_max s; st_sum := st_sum s;
+         st_isnum := isnum' |}
+  end.
 
 Definition stats_add (s : stats) (r : dict) : stats :=
   let s' := fold_left (fun s kv => stats_add_one s (fst kv) (snd kv)) r s in
